@@ -68,6 +68,13 @@ def w6 (H : Hier) : Bool := (regions H).all fun r => r.parent == r.cont
 
 def wf (H : Hier) : Bool := w1 H && w2 H && w3 H && w4 H && w5 H && w6 H
 
+/-- every container an entry names is a region (the flat encoding of nesting; hypothesis of
+    `Scfg.C04.walks_coincide_conv`) -/
+def contsOK (H : Hier) : Bool :=
+  H.all fun b => match H.get? b.cont with
+    | none => true
+    | some r => r.isRegion
+
 def wfClauses (H : Hier) : List (String × Bool) :=
   [("W1-unique-names", w1 H), ("W2-header-exiting-inside", w2 H),
    ("W3-leaves-only-from-exiting", w3 H), ("W4-targets-in-scope", w4 H),
@@ -173,11 +180,41 @@ def s3 (H : Hier) : Bool :=
           | _ => false)
       | none :: _ => false
 
-def structured (H : Hier) (top : Name) : Bool := s1 H top && s2 H && s3 H
+/-- The leaf a non-back-edge target of leaf `a` leads to (through region headers). -/
+def leafArcs (H : Hier) (a : Blk) : List Name :=
+  a.jt.filterMap fun t => (resolve H (H.length + 1) t).map (·.name)
+
+/-- Every walk step between leaves that is not a declared back edge strictly increases the rank. -/
+def leafRanksOK (H : Hier) (rk : Ranks) : Bool :=
+  (leaves H).all fun a => match rk.get a.name with
+    | none => false
+    | some ra => (leafArcs H a).all fun t => match rk.get t with
+      | none => false
+      | some rt => ra < rt
+
+/-- Untrusted: ranks of the leaves by repeated peeling on a precomputed arc table. -/
+def peelT : Nat → Nat → List (Name × List Name) → Ranks → Ranks
+  | 0, _, _, rk => rk
+  | f + 1, r, rest, rk =>
+    let ready := rest.filter fun p => !(rest.any fun q => q.2.contains p.1)
+    if ready.isEmpty then rk
+    else peelT f (r + 1) (rest.filter fun p => !(ready.any (·.1 == p.1)))
+      (rk ++ ready.map fun p => (p.1, r))
+
+def computeLeafRanks (H : Hier) : Ranks :=
+  let tbl := (leaves H).map fun a => (a.name, leafArcs H a)
+  peelT (tbl.length + 1) 0 tbl []
+
+/-- S4: across the whole hierarchy, the walk by name between leaf blocks is acyclic once declared
+    back edges are ignored — every cycle of the walk (hence, by C01, every cycle of the input)
+    takes a declared back edge, which by S2 runs from a loop region's latch to its header. -/
+def s4 (H : Hier) : Bool := leafRanksOK H (computeLeafRanks H)
+
+def structured (H : Hier) (top : Name) : Bool := s1 H top && s2 H && s3 H && s4 H
 
 def structuredClauses (H : Hier) (top : Name) : List (String × Bool) :=
   [("S1-acyclic-without-backedges", s1 H top), ("S2-backedges-only-loop-latch-to-header", s2 H),
-   ("S3-branching-only-at-head-region-exits", s3 H)]
+   ("S3-branching-only-at-head-region-exits", s3 H), ("S4-every-cycle-takes-a-backedge", s4 H)]
 
 /-! ## C05 -/
 
